@@ -30,21 +30,27 @@ def run(chk, prog):
     }
     for name, sp in specs.items():
         _, fn = prog.func(name, VI)
-        ge = prog.nested(fn, "grad_estimate")
-        loss = prog.nested(ge, "_loss")
-        where = f"{m.rel}:{loss.lineno}"
+        where = f"{m.rel}:{fn.lineno}"
+        # decided on what the objective returns: a function (key, args) -> L.grad_estimate(key, args) with L an @expectation whose body, applied to the
+        # target arguments, is the negated evidence estimate - wherever L is defined (inline, or built by a shared helper)
         ev = Evaluator(prog)
-        env0 = {k: P(k) for k in sp["env"]}
-        env0["key"] = P("key")
-        r = ev.eval_fn(loss, m, env0=env0)
-        tgt = ("call", P("make_target"), (("star", P("args")),), ())
+        r0 = ev.eval_fn(fn, m)
+        if ev.closure_of(r0.ret) is None:
+            raise AnalysisError(f"{name} does not return a gradient-estimate function")
+        rg_ = ev.apply(r0.ret, [P("key"), P("args")], module=m)
+        lossc = rg_[1][1] if is_mcall(rg_, "grad_estimate") else None
+        lclo = ev.closure_of(lossc) if lossc is not None else None
+        if lclo is None:
+            raise AnalysisError(f"{name}: the gradient estimate is not <expectation>.grad_estimate(key, args)")
+        where = f"{m.rel}:{lclo.node.lineno}"
+        rl = ev.apply(lossc, [("star", P("$targs"))], module=m)
+        tgt = ("call", P("make_target"), (("star", P("$targs")),), ())
         alg = ("ctor", sp["alg"][0], sp["alg"][1](tgt), ())
         want = ("un", "-", ("call", ("attr", alg, "estimate_normalizing_constant"), (P("key"), tgt), ()))
-        chk.require(r.ret == want, "LOSS-SIGN", f"{name}._loss", "negative log normalizing-constant estimate of the guide-proposal importance sampler", derived=show(r.ret)[:260], expected=show(want)[:260], where=where)
-        rg = Evaluator(prog).eval_fn(ge, m, env0={k: P(k) for k in sp["env"]})
-        deco = [ast.unparse(d) for d in loss.decorator_list]
-        okg = is_mcall(rg.ret, "grad_estimate") and rg.ret[2] == (P("key"), P("args")) and deco == ["expectation"]
-        chk.require(okg, "LOSS-SIGN", f"{name}.grad_estimate", "expectation(_loss).grad_estimate(key, args)", derived=f"{show(rg.ret)[:160]} decorators={deco}", expected="@expectation _loss; _loss.grad_estimate(key, args)", where=where)
+        chk.require(rl == want, "LOSS-SIGN", f"{name}._loss", "negative log normalizing-constant estimate of the guide-proposal importance sampler", derived=show(rl)[:260], expected=show(want)[:260], where=where)
+        deco = [ast.unparse(d) for d in getattr(lclo.node, "decorator_list", [])]
+        okg = rg_[2] == (P("key"), P("args")) and deco == ["expectation"]
+        chk.require(okg, "LOSS-SIGN", f"{name}.grad_estimate", "expectation(_loss).grad_estimate(key, args)", derived=f"{show(rg_)[:160]} decorators={deco}", expected="@expectation _loss; _loss.grad_estimate(key, args)", where=where)
     for name, envn in (("PWake", ["posterior_approx", "make_target"]), ("QWake", ["proposal", "posterior_approx", "make_target"])):
         _, fn = prog.func(name, VI)
         ge = prog.nested(fn, "grad_estimate")
